@@ -377,6 +377,205 @@ theorem C17_per_key_bound (lim : Limits) (hb : 0 ≤ lim.burst) (k : Key × Bool
   rw [obsFor_eq_runG lim k hk]
   exact bucket_withinBound (Int.le_of_lt hk) hb _ _ (full_inv hb t0) (gated_sorted lim k rs _ t0 hs)
 
+/-! ### Clean-up of idle limiters
+
+A dropped limiter comes back full.  With the refill-aware cut-off that is invisible: the bucket
+would have been full anyway, so every later decision is the one the never-dropped bucket makes, and
+the bound carries over to histories with any number of clean-up passes at any times.  With the
+pinned fixed 10-minute cut-off it is not (witness below: rate 1/min, burst 12). -/
+
+/-- From `t` on the two buckets answer every ask alike (and continue alike). -/
+def Same (rate burst t : Int) (b b' : Bucket) : Prop := ∀ t', t ≤ t' → ask rate burst b t' = ask rate burst b' t'
+
+private theorem same_mono {rate burst t u : Int} {b b' : Bucket} (h : Same rate burst t b b') (htu : t ≤ u) :
+    Same rate burst u b b' := fun t' ht' => h t' (by omega)
+
+private theorem same_trans {rate burst t : Int} {a b c : Bucket} (h1 : Same rate burst t a b) (h2 : Same rate burst t b c) :
+    Same rate burst t a c := fun t' ht' => (h1 t' ht').trans (h2 t' ht')
+
+/-- **A refill-aware clean-up pass is invisible.** -/
+theorem sweep_refillAware_same {rate burst : Int} (hr : 0 ≤ rate) {b : Bucket} (hi : BInv burst b) (t : Int) :
+    Same rate burst t b (sweep .refillAware rate burst b t) := by
+  intro t' ht'
+  unfold sweep
+  by_cases he : evictable .refillAware rate burst b t = true
+  · rw [if_pos he]
+    unfold evictable at he
+    simp only [Bool.and_eq_true, decide_eq_true_eq] at he
+    obtain ⟨hidle, hfull⟩ := he
+    have hten : (0 : Int) < tenMin := by decide
+    have hsec : (0 : Int) ≤ second := by decide
+    have hm : rate * (t - b.last - second) ≤ rate * (t' - b.last) :=
+      Int.mul_le_mul_of_nonneg_left (by omega) hr
+    have hlo := hi.lo
+    have h1 : refilled rate burst b t' = burst * unit := by
+      unfold refilled elapsed
+      rw [if_neg (by omega)]
+      exact Int.min_eq_left (by omega)
+    have h2 : refilled rate burst (full burst t) t' = burst * unit := by
+      unfold refilled full elapsed
+      simp only []
+      rw [if_neg (by omega)]
+      have := Int.mul_nonneg hr (show 0 ≤ t' - t by omega)
+      exact Int.min_eq_left (by omega)
+    unfold ask
+    rw [h1, h2]
+  · rw [if_neg he]
+
+private theorem sweep_inv {v : EvictVariant} {rate burst : Int} (hb : 0 ≤ burst) {b : Bucket} (hi : BInv burst b) (t : Int) :
+    BInv burst (sweep v rate burst b t) := by
+  unfold sweep
+  split
+  · exact full_inv hb t
+  · exact hi
+
+/-- One bucket: a schedule with refill-aware clean-up passes decides exactly as the same schedule without them. -/
+theorem runS_refillAware_eq_runG {rate burst : Int} (hr : 0 ≤ rate) (hb : 0 ≤ burst) :
+    ∀ (l : List Step) (b b' : Bucket) (lo : Int), Same rate burst lo b b' → BInv burst b' → StepsSorted lo l →
+      runS .refillAware rate burst b' l = runG rate burst b (asksOf l)
+  | [], _, _, _, _, _, _ => by simp [runS, asksOf, runG]
+  | .sweep t :: rest, b, b', lo, hs, hi, hsort => by
+    simp only [runS, asksOf]
+    have hs' : Same rate burst t b (sweep .refillAware rate burst b' t) :=
+      same_trans (same_mono hs hsort.1) (sweep_refillAware_same hr hi t)
+    exact runS_refillAware_eq_runG hr hb rest b _ t hs' (sweep_inv hb hi t) hsort.2
+  | .ask t false :: rest, b, b', lo, hs, hi, hsort => by
+    simp only [runS, asksOf, runG]
+    rw [runS_refillAware_eq_runG hr hb rest b b' t (same_mono hs hsort.1) hi hsort.2]
+  | .ask t true :: rest, b, b', lo, hs, hi, hsort => by
+    simp only [runS, asksOf, runG]
+    have he : ask rate burst b t = ask rate burst b' t := hs t hsort.1
+    rw [he]
+    rw [runS_refillAware_eq_runG hr hb rest (ask rate burst b' t).2 (ask rate burst b' t).2 t (fun _ _ => rfl)
+      (ask_inv hr hb hi t).1 hsort.2]
+
+private theorem asksOf_sorted : ∀ (l : List Step) (lo : Int), StepsSorted lo l → SortedFrom lo (asksOf l)
+  | [], _, _ => trivial
+  | .sweep t :: rest, _, h => sorted_weaken _ _ _ h.1 (asksOf_sorted rest t h.2)
+  | .ask t _ :: rest, _, h => ⟨h.1, asksOf_sorted rest t h.2⟩
+
+/-- **The bound survives the clean-up** (one bucket, refill-aware cut-off): any schedule of asks and
+    clean-up passes with non-decreasing times stays within burst + rate·t in every interval. -/
+theorem bucket_bound_with_cleanup {rate burst : Int} (hr : 0 ≤ rate) (hb : 0 ≤ burst) (b : Bucket) (hi : BInv burst b)
+    (l : List Step) (hs : StepsSorted b.last l) :
+    withinBound rate burst (runS .refillAware rate burst b l) = true := by
+  rw [runS_refillAware_eq_runG hr hb l b b b.last (fun _ _ => rfl) hi hs]
+  exact bucket_withinBound hr hb _ _ hi (asksOf_sorted l _ hs)
+
+/-- The pinned cut-off hands out a fresh burst: 1 request/minute, burst 12; the client drains the
+    bucket, is silent for 10.5 minutes (which buy back 10 tokens), a clean-up pass runs, and 12
+    more requests are admitted: 24 in a window that allows 12 + 10.5. -/
+def cleanupWitness : List Step :=
+  (List.replicate 12 (Step.ask 0 true)) ++ [Step.sweep 630000000000] ++ (List.replicate 12 (Step.ask 630000000000 true))
+
+theorem C17_cleanup_fresh_burst_witness :
+    withinBound 1 12 (runS .fixedIdle 1 12 (full 12 0) cleanupWitness) = false ∧
+    withinBound 1 12 (runS .refillAware 1 12 (full 12 0) cleanupWitness) = true := by
+  decide +kernel
+
+/-! #### The validator chain with clean-up passes -/
+
+def EvSorted : Int → List Ev → Prop
+  | _, [] => True
+  | lo, e :: rest => lo ≤ e.time ∧ EvSorted e.time rest
+
+/-- The two limiter states answer alike from `t` on: same global bucket, and every key that has a
+    limiter (positive limit) is `Same`. -/
+structure SRel (lim : Limits) (t : Int) (st st' : RState) : Prop where
+  glob : st.global = st'.global
+  keys : ∀ k : Key × Bool, 0 < limitFor lim k.2 → Same (limitFor lim k.2) lim.burst t (st.perKey k) (st'.perKey k)
+
+private theorem srel_mono {lim : Limits} {t u : Int} {st st' : RState} (h : SRel lim t st st') (htu : t ≤ u) : SRel lim u st st' :=
+  ⟨h.glob, fun k hk => same_mono (h.keys k hk) htu⟩
+
+private theorem globalStep_congr (lim : Limits) {st st' : RState} (h : st.global = st'.global) (r : Req) :
+    globalStep lim st r = globalStep lim st' r := by
+  unfold globalStep; rw [h]
+
+/-- One request: related states decide alike and stay related (and the swept side keeps its invariant). -/
+private theorem rateStep_rel (lim : Limits) (hb : 0 ≤ lim.burst) {t : Int} {st st' : RState} (h : SRel lim t st st')
+    (hinv : ∀ k : Key × Bool, 0 < limitFor lim k.2 → BInv lim.burst (st'.perKey k)) (r : Req) (ht : t ≤ r.time) :
+    (rateStep lim st r).1 = (rateStep lim st' r).1 ∧ SRel lim r.time (rateStep lim st r).2 (rateStep lim st' r).2 ∧
+      (∀ k : Key × Bool, 0 < limitFor lim k.2 → BInv lim.burst ((rateStep lim st' r).2.perKey k)) := by
+  have hg := globalStep_congr lim h.glob r
+  unfold rateStep
+  simp only []
+  by_cases hl : limitFor lim r.health ≤ 0
+  · simp only [hl, if_true]
+    exact ⟨trivial, srel_mono h ht, hinv⟩
+  · simp only [hl, if_false]
+    rw [← hg]
+    by_cases hgo : (globalStep lim st r).1 = true
+    · simp only [hgo, Bool.not_true, Bool.false_eq_true, if_false]
+      have hk : 0 < limitFor lim ((r.key, r.health) : Key × Bool).2 := by show 0 < limitFor lim r.health; omega
+      have he := h.keys (r.key, r.health) hk r.time ht
+      refine ⟨by rw [he], ⟨rfl, ?_⟩, ?_⟩
+      · intro k hk' t' ht'
+        show ask _ _ (if k = (r.key, r.health) then _ else _) t' = ask _ _ (if k = (r.key, r.health) then _ else _) t'
+        by_cases hkk : k = (r.key, r.health)
+        · simp only [hkk, if_true]; rw [he]
+        · simp only [hkk, if_false]; exact h.keys k hk' t' (by omega)
+      · intro k hk'
+        show BInv lim.burst (if k = (r.key, r.health) then _ else _)
+        by_cases hkk : k = (r.key, r.health)
+        · simp only [hkk, if_true]
+          exact (ask_inv (Int.le_of_lt hk) hb (hinv _ hk) r.time).1
+        · simp only [hkk, if_false]; exact hinv k hk'
+    · have hgo' : (globalStep lim st r).1 = false := by simpa using hgo
+      simp only [hgo', Bool.not_false, if_true]
+      exact ⟨trivial, ⟨rfl, fun k hk => same_mono (h.keys k hk) ht⟩, hinv⟩
+
+/-- **Clean-up passes are invisible to the whole validator** (refill-aware cut-off): any history of
+    requests and clean-up passes is decided exactly like the same requests without the passes. -/
+theorem rateRunS_refillAware_eq (lim : Limits) (hb : 0 ≤ lim.burst) :
+    ∀ (evs : List Ev) (st st' : RState) (lo : Int), SRel lim lo st st' →
+      (∀ k : Key × Bool, 0 < limitFor lim k.2 → BInv lim.burst (st'.perKey k)) → EvSorted lo evs →
+      rateRunS .refillAware lim st' evs = rateRun lim st (reqsOf evs)
+  | [], _, _, _, _, _, _ => by simp [rateRunS, reqsOf, rateRun]
+  | .sweep t :: rest, st, st', lo, h, hinv, hs => by
+    simp only [rateRunS, reqsOf]
+    refine rateRunS_refillAware_eq lim hb rest st _ t ⟨h.glob, fun k hk => ?_⟩ (fun k hk => ?_) hs.2
+    · exact same_trans (same_mono (h.keys k hk) hs.1) (sweep_refillAware_same (Int.le_of_lt hk) (hinv k hk) t)
+    · exact sweep_inv hb (hinv k hk) t
+  | .req r :: rest, st, st', lo, h, hinv, hs => by
+    simp only [rateRunS, reqsOf, rateRun]
+    obtain ⟨h1, h2, h3⟩ := rateStep_rel lim hb h hinv r hs.1
+    rw [h1, rateRunS_refillAware_eq lim hb rest _ _ r.time h2 h3 hs.2]
+
+private theorem reqsOf_sorted : ∀ (evs : List Ev) (lo : Int), EvSorted lo evs → ReqSorted lo (reqsOf evs)
+  | [], _, _ => trivial
+  | .sweep t :: rest, lo, h => by
+    have ih := reqsOf_sorted rest t h.2
+    simp only [reqsOf]
+    cases hr : reqsOf rest with
+    | nil => trivial
+    | cons r rs => rw [hr] at ih; exact ⟨Int.le_trans h.1 ih.1, ih.2⟩
+  | .req r :: rest, lo, h => ⟨h.1, reqsOf_sorted rest r.time h.2⟩
+
+/-- **Every bucket key is bounded, clean-up included** (refill-aware cut-off): for every history of
+    requests and clean-up passes with non-decreasing times, the requests admitted under one key
+    satisfy burst + rate·t in every interval. -/
+theorem C17_per_key_bound_with_cleanup_fixed (lim : Limits) (hb : 0 ≤ lim.burst) (k : Key × Bool) (hk : 0 < limitFor lim k.2)
+    (t0 : Int) (evs : List Ev) (hs : EvSorted t0 evs) :
+    withinBound (limitFor lim k.2) lim.burst (obsFor k (rateRunS .refillAware lim (RState.init lim t0) evs)) = true := by
+  rw [rateRunS_refillAware_eq lim hb evs (RState.init lim t0) (RState.init lim t0) t0
+    ⟨rfl, fun _ _ _ _ => rfl⟩ (fun _ _ => full_inv hb t0) hs]
+  exact C17_per_key_bound lim hb k hk t0 _ (reqsOf_sorted evs t0 hs)
+
+/-- The same for the variant the driver compares the code against. -/
+theorem C17_per_key_bound_with_cleanup_active (lim : Limits) (hb : 0 ≤ lim.burst) (k : Key × Bool) (hk : 0 < limitFor lim k.2)
+    (t0 : Int) (evs : List Ev) (hs : EvSorted t0 evs) (hv : activeEvict = .refillAware) :
+    withinBound (limitFor lim k.2) lim.burst (obsFor k (rateRunS activeEvict lim (RState.init lim t0) evs)) = true := by
+  rw [hv]; exact C17_per_key_bound_with_cleanup_fixed lim hb k hk t0 evs hs
+
+/-- The chain with the pinned cut-off: the witness history, through the whole validator. -/
+theorem C17_cleanup_chain_witness :
+    let lim : Limits := ⟨0, 1, 0, 12⟩
+    let asks (t : Int) : List Ev := List.replicate 12 (Ev.req ⟨t, ("c", 0), false⟩)
+    withinBound 1 12 (obsFor (("c", 0), false)
+      (rateRunS .fixedIdle lim (RState.init lim 0) (asks 0 ++ [Ev.sweep 630000000000] ++ asks 630000000000))) = false := by
+  decide +kernel
+
 /-! ### Per client IP -/
 
 def WSorted : Int → List WReq → Prop
